@@ -431,12 +431,12 @@ func (g *Gen) arrayExpr(sc scope) string {
 
 // scalarExpr yields an expression for {{ }}.
 func (g *Gen) scalarExpr(sc scope) string {
-	w := []int{5, 4, 4, 3, 2, 2, 1}
+	w := []int{5, 4, 4, 3, 2, 2, 1, 2}
 	if g.MapEmphasis {
-		w = []int{2, 1, 8, 4, 1, 1, 1}
+		w = []int{2, 1, 8, 4, 1, 1, 1, 3}
 	}
 	if g.ArrEmphasis {
-		w = []int{2, 1, 8, 2, 1, 2, 1}
+		w = []int{2, 1, 8, 2, 1, 2, 1, 2}
 	}
 	if g.loop == 0 {
 		w[5] = 0
@@ -500,6 +500,9 @@ func (g *Gen) scalarExpr(sc scope) string {
 		return e
 	case 5:
 		return "forloop." + pick(g.r, []string{"index", "index0", "rindex", "rindex0", "first", "last", "length"})
+	case 7: // a whole binding printed as it is (maps, MapSlices, slices, structs, Drops)
+		all := append(append(append([]string{"p", "d", "q"}, sc.maps...), sc.arrs...), sc.anys...)
+		return pick(g.r, all)
 	}
 	return g.chain(g.strLit(), strFilters, sc, 2)
 }
